@@ -23,7 +23,7 @@ func TestVerif(t *testing.T) {
 		ID:    "C07",
 		Level: "model_checking",
 		Rule: "(a) every DAG of U(4) (thorough U(5) for the memory store) and the curated family x every subset of nodes x every permutation of push order x {memory, file, OCI; file store with ForceCAS over U(3) [thorough U(4)]}: after the pushes Predecessors(n) of every node of the universe (present or not) " +
-			"must equal, as a multiset, the stored manifests whose generator edge list contains n; (b) OCI: curated shapes, root tagged or not, AutoGC on and off, followed by every sequence of <= 3 operations from {Delete(x), GC, reopen rw|fs|tar}, same oracle after every step, " +
+			"must equal, as a multiset, the stored manifests whose generator edge list contains n; (b) OCI: curated shapes and a chain index -> index -> manifest, root tagged or not, AutoGC on and off, followed by every sequence of <= 3 operations from {Delete(x), GC, reopen rw | fs.FS | tar | tar whose members are the half-filled layout followed by the current files, offered while nothing was removed}, same oracle after every step, " +
 			"map-order deviations O<=1 at the graph's map ranges; (c) 3 goroutines pushing parent/child/sibling concurrently under every schedule within D<=2; for the OCI store the directory is then opened again (read-write and as fs.FS) and must give the same relation. non-trivial = distinct (shape, push order) in which a parent was pushed before one of its children",
 		Assumptions: []string{
 			"OCI layouts key content by digest, so shapes in which two nodes share a digest are skipped for the OCI store",
@@ -135,7 +135,7 @@ func jobs(tier string) []driver.Job {
 		}
 	}
 	// (b) OCI delete / GC / reopen sequences
-	for _, d := range Curated() {
+	for _, d := range append(Curated(), Extra("index-chain")) {
 		if dupDigest(d) || len(d.Nodes) > 6 {
 			continue
 		}
@@ -242,7 +242,16 @@ func ociHist(c *driver.Ctx, d *DAG, tagRoot, autogc bool, depth int) (func(), fu
 		}
 		st.AutoGC = autogc
 		m := NewModel(d)
+		// the layout is archived when half of the nodes are stored: a later "reopen-tar-appended" reads an
+		// archive that holds those members followed by the files of that later moment (index.json twice)
+		baseTar := dir + ".base.tar"
+		defer os.Remove(baseTar)
 		for i := range d.Nodes {
+			if i == (len(d.Nodes)+1)/2 {
+				if err := TarDir(dir, baseTar); err != nil {
+					panic(err)
+				}
+			}
 			m.Apply(Op{Kind: "push", Node: i})
 			if err := ApplyOCI(st, d, Op{Kind: "push", Node: i}); err != nil {
 				panic(err)
@@ -255,9 +264,10 @@ func ociHist(c *driver.Ctx, d *DAG, tagRoot, autogc bool, depth int) (func(), fu
 		}
 		var cur ReadStore = st
 		live := true
+		removed := false // something was deleted or collected: an archive that only grows cannot show that
 		n := len(d.Nodes)
 		for step := 0; step < depth; step++ {
-			k := vs.Choose(n+5, vs.KInput, "op")
+			k := vs.Choose(n+6, vs.KInput, "op")
 			plan.ResetBudget()
 			switch {
 			case k == 0:
@@ -267,6 +277,7 @@ func ociHist(c *driver.Ctx, d *DAG, tagRoot, autogc bool, depth int) (func(), fu
 					continue // read-only reopen: no more mutations
 				}
 				hist = append(hist, "delete("+d.Nodes[k-1].Name+")")
+				removed = true
 				if autogc {
 					if _, amb, _ := m.DeleteAutoGC(k - 1); amb {
 						return
@@ -280,11 +291,19 @@ func ociHist(c *driver.Ctx, d *DAG, tagRoot, autogc bool, depth int) (func(), fu
 					continue
 				}
 				hist = append(hist, "gc")
+				removed = true
 				m.GC()
 				st.GC(context.Background())
 			default:
-				how := []string{"rw", "fs", "tar"}[k-n-2]
-				hist = append(hist, "reopen-"+how)
+				how := []string{"rw", "fs", "tar", "tar-after:" + baseTar}[k-n-2]
+				if k-n-2 == 3 && removed {
+					continue
+				}
+				if k-n-2 == 3 {
+					hist = append(hist, "reopen-tar-appended")
+				} else {
+					hist = append(hist, "reopen-"+how)
+				}
 				re, clean, err := Reopen(dir, how)
 				if err != nil {
 					fail = &driver.Fail{Sig: "reopen failed", Detail: strings.Join(hist, " ; ") + ": " + err.Error()}
